@@ -18,7 +18,11 @@ Op(name, a, b, r) == [op |-> name, a |-> a, b |-> b, r |-> r]
 Init == \E k \in Sizes : AInit(k) /\ BInit(k) /\ hist = <<Op("new", k, 0, 0)>>
 
 Next ==
+    \* a reset leads to a state that is usually already known (the fresh one): emit this TRANSITION as a case of its
+    \* own, so that "reset leaves no trace of the history before it" is replayed for every state it is taken from
     \/ \E k \in Sizes : Reset(k) /\ hist' = Append(hist, Op("reset", k, 0, 0))
+                          /\ Emit([hist |-> hist', n |-> k, comp |-> [i \in 1 .. k |-> i - 1], size |-> [i \in 1 .. k |-> 1],
+                                   rep |-> [i \in 1 .. k |-> -1], bdepth |-> 0])
     \/ \E u, v \in Elems : Un(u, v) /\ hist' = Append(hist, Op("un", u, v, B2I(UnResult(u, v))))
     \/ \E v \in Elems : Par(v) /\ hist' = Append(hist, Op("par", v, 0, 0))
     \/ \E u, v \in Elems : Check(u, v) /\ hist' = Append(hist, Op("check", u, v, B2I(CheckResult(u, v))))
